@@ -1,6 +1,7 @@
 package main
 
 import (
+	"sort"
 	"bytes"
 	"context"
 	"fmt"
@@ -161,6 +162,7 @@ func discharge(u *Unit, o *Obligation, cfg *solveCfg, idx int) {
 				agree = append(agree, r.solver)
 			}
 		}
+		sort.Strings(agree)
 		if o.Result != "sat" {
 			if len(agree) > 0 {
 				o.Result = "unsat"
